@@ -98,8 +98,6 @@ func (a *AES128CBC) SerializeTo(b gopacket.SerializeBuffer, _ gopacket.Serialize
 	}
 	trailer[padLength] = uint8(padLength)
 
-	toEncrypt := b.Bytes() // includes confidentiality trailer
-
 	// secure random IV for confidentiality header
 	iv, err := b.PrependBytes(a.cipher.BlockSize())
 	if err != nil {
@@ -108,6 +106,10 @@ func (a *AES128CBC) SerializeTo(b gopacket.SerializeBuffer, _ gopacket.Serialize
 	if _, err := rand.Read(iv); err != nil {
 		return err
 	}
+
+	// prepending may have moved the buffer to a new backing array, so only now
+	// is it safe to take the slice to encrypt (includes confidentiality trailer)
+	toEncrypt := b.Bytes()[a.cipher.BlockSize():]
 
 	// encrypt everything after IV
 	mode := cipher.NewCBCEncrypter(a.cipher, iv)
